@@ -157,6 +157,8 @@ class StreamRun:
 
 def collect_stream(runner, gen_value):
     run = StreamRun()
+    if hasattr(gen_value, 'drain'):
+        gen_value.drain()              # the consumer of run() asks for every result
     if isinstance(gen_value, GenResult) and getattr(gen_value, 'pending', None) is not None:
         raise gen_value.pending         # the consumer of run() meets the exception
     items = gen_value.items if isinstance(gen_value, GenResult) else list(gen_value)
